@@ -928,7 +928,8 @@ MUST = [
     "shared_filter_sum", "shared_two_consumers",
     "concat_parts_axis1", "concat_parts_axis0", "add_parts_broadcast", "parts_of_elemwise", "parts_of_shuffle",
     "nested_fused", "nested_fused_deps", "nested_fused_deps3", "upper_first_shared_stage", "stage_first_shared_stage",
-    "assign_overwrite_shared", "assign_overwrite_concat", "two_reparts_up", "two_reparts_mixed",
+    "assign_overwrite_shared", "assign_overwrite_concat", "two_reparts_up", "two_reparts_mixed", "two_reparts_size",
+    "filt_a/filt_cum/id", "filt_or/filt_cum/col0", "filt_a/filt_cum/sum",
     "dropna_c/gb_sum", "dropna_c/gb_count", "dropna/gb_agg", "dropna_c/col0", "dropna_c/sum",
     "rename_aA/rename_aA/col0", "rename_aA/col0", "rename_aA/filt_a/col0", "prefix/suffix/col0",
     "set_index_a/prefix/col0", "set_index_a/suffix/col0", "set_index_a/rename_aA/col0", "set_index_a/filt_or/col0",
